@@ -7,6 +7,7 @@
 #include <set>
 #include <map>
 #include "manifold/polygon.h"
+#include "polygon_internal.h"
 #include "verif_hooks.h"
 #include "common.h"
 using namespace manifold;
@@ -42,6 +43,7 @@ int main(int argc, char** argv) {
   verif::hooks().onEarStart = [] { gStarts++; };
   verif::hooks().onEarClip = [](int e) { gOps += " ; c " + std::to_string(e); };
   verif::hooks().onEarJoin = [](int s, int c) { gOps += " ; j " + std::to_string(s) + " " + std::to_string(c); };
+  PolygonTriangulator reused;   // one triangulator object reused across ALL cases (scales 1e-6..1e6)
   for (int t = 0; t < T; t++) {
     Polygons polys; int holes = 0, outers = 0;
     int kind = (int)r.below(6);
@@ -96,6 +98,14 @@ int main(int argc, char** argv) {
       if ((long)T2.size() > (long)V + 2 * holes - 2 * outers) { ok = false; msg = std::string(which) + ": more triangles than V-2+2h-2(o-1)"; }
     };
     check(tris, "requested path"); check(tris2, "other path");
+    {  // reuse clause: a triangulator that has seen other inputs before must give the fresh result
+      PolygonsIdx pi; int id3 = 0; for (auto& p : polys) { SimplePolygonIdx q; for (auto& v : p) q.push_back({v, id3++}); pi.push_back(q); }
+      PolygonTriangulator fresh;
+      auto a = TriangulateIdxHalfedges(pi, -1, allowConvex, fresh).Triangles();
+      auto b = TriangulateIdxHalfedges(pi, -1, allowConvex, reused).Triangles();
+      if (a != b) { ok = false; msg = "reused triangulator object gives a different triangulation than a fresh one (epsilon fresh=" + std::to_string(fresh.GetPrecision()) + " reused=" + std::to_string(reused.GetPrecision()) + ")"; }
+      if (a != tris) { ok = false; msg = "TriangulateIdxHalfedges differs from Triangulate on the same input"; }
+    }
     // the decision log of the FIRST call only (second call's hooks come after a second onEarStart)
     std::string tag = "c" + std::to_string(t) + " " + (ops1.empty() ? "convex" : "earclip") + " V=" + std::to_string(V) + " h=" + std::to_string(holes) + " o=" + std::to_string(outers);
     hz::emit(tag, "", "", ok, msg);
